@@ -30,6 +30,8 @@ namespace {
 // kinds: 0 A records (compressed names) 1 CNAME+A 2 unknown type+A 3 rcode3 4 rcode2 5 rcode5 6 rcode1
 //        7 truncated at arg 8 inflated an_count 9 pointer loop 10 forward pointer 11 pointer outside 12 random bytes (right id)
 //        13 wrong id 14 query instead of response 15 tiny datagram (arg bytes, 0..3) 16 chain of pointers
+//        20 a valid reply of more than 4096 bytes (larger than the client's receive buffer)
+//   burst <dt_ms> <n>     n lookups at once
 //        18 good A records, then an A record with RDLENGTH 0-3 at the very end   19 an A record with RDLENGTH 5-8, then good ones
 //        17 a label followed by a pointer back to that label (a loop that every single pointer check 'target lies before me' accepts)
 void generate(sim::Rng &r, uint64_t seed, const std::string &tier, sim::Plan &p) {
@@ -40,6 +42,8 @@ void generate(sim::Rng &r, uint64_t seed, const std::string &tier, sim::Plan &p)
   int n = (int)r.range(1, thorough ? 20 : 10);
   { sim::Op op; op.kind = "req"; op.a = {0, r.range(0, 5), r.chance(300) ? 1 : 0}; p.ops.push_back(op); }
   int made = 1;
+  // now and then many lookups at once (transaction ids in use at the same time must all be different)
+  if (r.chance(60)) { sim::Op op; op.kind = "burst"; op.a = {r.range(0, 50), r.pick((const long[]){60, 250, 400})}; p.ops.push_back(op); }
   for (int i = 0; i < n; ++i) {
     sim::Op op;
     unsigned x = (unsigned)r.below(100);
@@ -49,7 +53,7 @@ void generate(sim::Rng &r, uint64_t seed, const std::string &tier, sim::Plan &p)
     else {
       long kind;
       unsigned y = (unsigned)r.below(100);
-      if (y < 30) kind = r.range(0, 2); else if (y < 42) kind = r.range(3, 6); else kind = r.range(7, 19);
+      if (y < 30) kind = r.range(0, 2); else if (y < 42) kind = r.range(3, 6); else kind = r.range(7, 20);
       op.kind = "reply"; op.a = {dt, (long)r.below((uint64_t)made), kind, (long)r.below(80), r.range(0, 4)};
     }
     p.ops.push_back(op);
@@ -122,6 +126,7 @@ std::vector<uint8_t> craft(const Lookup &l, long kind, long arg, long nrec, uint
   long an = std::max(0L, std::min(4L, nrec));
   long an_field = an + (kind == 1 ? 1 : 0) + (kind == 2 ? 1 : 0) + (kind == 18 ? 1 : 0) + (kind == 19 ? 1 : 0);
   if (kind == 8) an_field = 200 + arg;
+  if (kind == 20) an_field = 300;        // filled in below: a datagram larger than the client's 4096-byte receive buffer
   put16(b, 1); put16(b, (unsigned)an_field); put16(b, 0); put16(b, 0);
   size_t qname_off = b.size();
   put_name(b, l.domain);
@@ -158,6 +163,13 @@ std::vector<uint8_t> craft(const Lookup &l, long kind, long arg, long nrec, uint
     }
   }
   if (kind == 18) { name_ptr(qname_off); put16(b, 1); put16(b, 1); put32(b, serial); long n = arg % 4; put16(b, (unsigned)n); for (long i = 0; i < n; ++i) b.push_back((uint8_t)(66)); }   // a short A record (0-3 bytes of address) ends the datagram
+  if (kind == 20) {
+    // A records until the datagram is a few bytes longer than 4096: the last record straddles the end of the receive buffer
+    long cnt = 0;
+    while (b.size() < 4096 + 3 + (size_t)(arg % 12)) { name_ptr(qname_off); put16(b, 1); put16(b, 1); put32(b, serial); put16(b, 4); b.push_back(10); b.push_back(20); b.push_back((uint8_t)(cnt >> 8)); b.push_back((uint8_t)cnt); ++cnt; }
+    b[6] = (uint8_t)(cnt >> 8); b[7] = (uint8_t)cnt;
+    return b;
+  }
   if (kind == 7 && !b.empty()) b.resize((size_t)std::min<long>((long)b.size(), 4 + arg % (long)b.size()));
   return b;
 }
@@ -265,6 +277,10 @@ void execute(const sim::Plan &plan) {
       tl.at(t, [op] {
         W.loop->runInLoop([op] { issue_lookup((int)(((op->arg(1) % 6) + 6) % 6), op->arg(2) != 0 ? 1 : 0); }, "c15.req");
       }, (int)i);
+    } else if (op->kind == "burst") {
+      tl.at(t, [op] {
+        W.loop->runInLoop([op] { long n = std::max(1L, std::min(500L, op->arg(1))); for (long k = 0; k < n; ++k) issue_lookup((int)(k % 6), 0); sim::probe("burst_lookups", n); }, "c15.burst");
+      }, (int)i);
     } else if (op->kind == "cancel") {
       tl.at(t, [op] {
         W.loop->runInLoop([op] {
@@ -279,7 +295,7 @@ void execute(const sim::Plan &plan) {
         if (W.lk.empty()) return;
         Lookup &L = W.lk[(size_t)(std::max(0L, op->arg(1)) % (long)W.lk.size())];
         uint32_t serial = ++W.serial;
-        std::vector<uint8_t> b = craft(L, ((op->arg(2) % 20) + 20) % 20, std::max(0L, op->arg(3)), op->arg(4), serial);
+        std::vector<uint8_t> b = craft(L, ((op->arg(2) % 21) + 21) % 21, std::max(0L, op->arg(3)), op->arg(4), serial);
         W.sent.push_back(Sent{serial, b});
         sim::trace("reply kind=%ld serial=%u len=%zu", op->arg(2), serial, b.size());
         sim::relevant();
